@@ -2,6 +2,7 @@ import SlicecVerif.Drv.C10
 import SlicecVerif.Drv.C11
 import SlicecVerif.Drv.C12
 import SlicecVerif.Drv.C02
+import SlicecVerif.Drv.C17
 
 open Slicec Slicec.Drv
 
@@ -19,6 +20,7 @@ def main (args : List String) : IO UInt32 := do
     | "C12" => genC12 t s o
     | "C02" => genC02 t s o
     | "C09" => genC09 t s o
+    | "C17" => genC17 t s o
     | _ => IO.eprintln s!"unknown property {prop}"; return 2
     o.flush
     return 0
